@@ -59,6 +59,9 @@ def substArgs (args : List Str) (line : Str) : Str :=
 
 /-! ### pass 0 : macro expansion -/
 
+/-- MAX_MACRO_LINE of pass0.rs -/
+def macroLine : Nat := 65536
+
 /-- `macro_expand` : the segments the substituted body parses to -/
 def macroExpand (fs : Fs) (macros : List (Str × List (Nat × Str)))
     (st : PState) (ln : Nat) (name : Str) (ops : List IOp) : Out (PState × List Segment) :=
@@ -67,6 +70,8 @@ def macroExpand (fs : Fs) (macros : List (Str × List (Nat × Str)))
   | some body =>
     let body := if ops.isEmpty then body
       else body.map fun (n, l) => (n, substArgs (ops.map iopText) l)
+    -- MAX_MACRO_LINE: a body line longer than that (in bytes) after substitution is refused
+    if !ops.isEmpty ∧ body.any (fun (_, l) => (utf8 l).length > macroLine) then lineErr ln "macro-line" else
     let inner : PState :=
       { ctx := st.ctx, segments := [{ items := [], t := .code, address := st.lastSeg.address }],
         macros := st.macros, macroName := st.macroName, messages := st.messages }
